@@ -16,9 +16,12 @@ import (
 	"errors"
 	"fmt"
 	"io"
+	"os"
 	"os/exec"
+	"runtime"
 	"sync"
 	"sync/atomic"
+	"time"
 
 	"github.com/magisterquis/curlrevshell/lib/uu"
 	"github.com/magisterquis/curlrevshell/verifx/ev"
@@ -150,6 +153,61 @@ func c15Viol(r *ev.Result, sig, what, op string, data []byte) {
 // c15CheckEncode checks one input against the reference encoder, the
 // decoder and the purity/length clauses.  want may be nil to use the
 // reference encoder.
+// Calls of the decoder that are under way (the decoder terminates: a call
+// that has not come back after five minutes, on at most a mebibyte, never
+// will).
+var c15InFlight struct {
+	sync.Mutex
+	next  int
+	calls map[int]c15Call
+}
+
+type c15Call struct {
+	since time.Time
+	input []byte
+}
+
+func c15Enter(enc []byte) int {
+	c15InFlight.Lock()
+	defer c15InFlight.Unlock()
+	if nil == c15InFlight.calls {
+		c15InFlight.calls = map[int]c15Call{}
+	}
+	c15InFlight.next++
+	c15InFlight.calls[c15InFlight.next] = c15Call{time.Now(), enc}
+	return c15InFlight.next
+}
+
+func c15Leave(slot int) {
+	c15InFlight.Lock()
+	delete(c15InFlight.calls, slot)
+	c15InFlight.Unlock()
+}
+
+// c15Watch reports a decoder call that does not return and ends the check
+// (which could not end otherwise: its workers wait for that call).
+func c15Watch(r *ev.Result, limit time.Duration) {
+	for {
+		time.Sleep(limit / 10)
+		c15InFlight.Lock()
+		var stuck *c15Call
+		for _, c := range c15InFlight.calls {
+			if time.Since(c.since) > limit {
+				c := c
+				stuck = &c
+				break
+			}
+		}
+		n := len(c15InFlight.calls)
+		c15InFlight.Unlock()
+		if nil != stuck {
+			c15Viol(r, "decode-never-returns", fmt.Sprintf("AppendDecode has not returned after %v on an input of %d bytes (%d calls under way at the same moment; the decoder is called from %d goroutines at once throughout this check)", limit, len(stuck.input), n, runtime.GOMAXPROCS(0)), "decode", stuck.input)
+			r.Exhaustive = false
+			os.Exit(r.Finish())
+		}
+	}
+}
+
 // c15Prefix is what a destination holds already: bytes the codec itself
 // treats specially (a space, a backtick, a newline, a length character).
 const c15Prefix = "P `\nM"
@@ -247,7 +305,9 @@ func c15CheckDecode(r *ev.Result, class string, enc, orig []byte, mustEqual bool
 				c15Viol(r, "decode-panic/"+class, fmt.Sprintf("AppendDecode panicked: %v", p), "decode", enc)
 			}
 		}()
+		slot := c15Enter(enc)
 		got, err = uu.AppendDecode(dback, s)
+		c15Leave(slot)
 	}()
 	if panicked {
 		return false
@@ -353,6 +413,7 @@ func c15(r *ev.Result, tier string) {
 		"(d) every string of length <=L over an 11-symbol decoder alphabet, plus CR-LF / blank-line / over-long rewrites of valid encodings. " +
 		"A case is non-trivial when its (class, input) pair is new; all enumerated inputs are distinct by construction."
 
+	go c15Watch(r, 5*time.Minute)
 	var distinct atomic.Int64
 	var evals atomic.Int64
 
